@@ -1,5 +1,5 @@
 #!/bin/bash
-# usage: tools/soak.sh <tier> <seed> [<seed> ...]   — runs every claimed check on the unchanged tree for each seed and
+# usage: [SOAK_IDS='C04 C06'] tools/soak.sh <tier> <seed> [<seed> ...]   — runs every claimed check (or those in SOAK_IDS) on the unchanged tree for each seed and
 # prints one line per run; exit 1 if any run raised an alarm.  Meant for `vp run` (own snapshot, own build).
 set -u
 TIER=$1; shift
@@ -10,7 +10,7 @@ echo "soak: repo=${VERIF_REPO:-/repo} tier=$TIER seeds=$*"
 if [ ! -x lean/.lake/build/bin/oracle ]; then ./check --setup > /tmp/soak-setup.$$ 2>&1 || { tail -20 /tmp/soak-setup.$$; exit 2; }; fi
 bad=0
 for seed in "$@"; do
-  for id in $(python3 -c "import json;print(' '.join(c['property_id'] for c in json.load(open('MANIFEST.json'))['checks']))"); do
+  for id in ${SOAK_IDS:-$(python3 -c "import json;print(' '.join(c['property_id'] for c in json.load(open('MANIFEST.json'))['checks']))")}; do
     t0=$(date +%s)
     out=$(VERIF_SEED=$seed ./check $id --tier $TIER 2>&1); rc=$?
     t1=$(date +%s)
